@@ -25,7 +25,7 @@
 
 // ASan/UBSan: a report must end the process with a recognisable code; leak-at-exit is replaced by the exact ledger.
 extern "C" __attribute__((used, visibility("default"))) const char *__asan_default_options() {
-    return "exitcode=77:detect_leaks=0:allocator_may_return_null=1:abort_on_error=0:handle_abort=1:print_stacktrace=1:quarantine_size_mb=16";
+    return "exitcode=77:detect_leaks=0:allocator_may_return_null=1:abort_on_error=0:handle_abort=1:print_stacktrace=1:quarantine_size_mb=16:malloc_fill_byte=190:max_malloc_fill_size=268435456";
 }
 extern "C" __attribute__((used, visibility("default"))) const char *__ubsan_default_options() {
     return "print_stacktrace=1:halt_on_error=1";
